@@ -16,6 +16,7 @@ def run(prog: Program, rep: Report, tier: str) -> None:
     rep.rule('C10-D1', 'accumulate-all: in acb the loop over connected_components(g) appends a decomposition of every component on every non-raising path and never returns from inside the loop; the component trees are all joined into the result')
     rep.rule('C10-D2', 'dispatch: tree_decomposition tests exactly the documented methods (README, bin/factorize.py choices) and raises on anything else')
     rep.rule('C10-D3', 'non-destructive bounds: min_fill / minor_min_width / quickbb work on a private copy of their argument graph (so that the bound helpers can be called on the graph that is decomposed afterwards)')
+    rep.rule('C10-D4', 'reported width accounts for every eliminated vertex: in a function that returns (width, order) with `order` grown inside a loop, every statement that adds vertices to `order` is preceded, on all paths of the same iteration, by `width = max(width, <degree>)`')
     rep.not_decided += ['validity (coverage, running intersection) of the decomposition for all graphs', 'optimality of quickbb/acb', 'correctness of acb_connected']
     f = prog.func(FZ, 'acb')
     loops = [(l, a) for l, a in find_accumulating_loops(f) if isinstance(l.iter, ast.Call) and callee_last(l.iter) == 'connected_components']
@@ -73,3 +74,44 @@ def run(prog: Program, rep: Report, tier: str) -> None:
             and norm(first.targets[0]) == p0 and first.value.args and norm(first.value.args[0]) == p0
         rep.ob('C10-D3 private-copy', g.fq(), f"{p0} = copy_graph({p0}) before any elimination", g.loc(), ok,
                '' if ok else f"first statement is `{norm(first)[:80] if first is not None else None}`; the function eliminates/contracts nodes of its argument in place")
+    width_accounting(rep, prog)
+
+
+def width_accounting(rep: Report, prog: Program) -> None:
+    from ..cfg import cfg_of
+    rule = 'C10-D4 width-accounting'
+    n = 0
+    for f in prog.module(FZ).functions.values():
+        if f.is_lambda or f.parent is not None:
+            continue
+        rets = [r.value for r in own_nodes(f.node) if isinstance(r, ast.Return) and r.value is not None]
+        if not rets or not all(isinstance(r, ast.Tuple) and len(r.elts) == 2 and all(isinstance(e, ast.Name) for e in r.elts) for r in rets):
+            continue
+        W, O = rets[0].elts[0].id, rets[0].elts[1].id
+        cfg = cfg_of(f)
+
+        def grows(k: int) -> bool:
+            st = cfg.nodes[k].stmt
+            if cfg.nodes[k].kind != 'stmt' or st is None:
+                return False
+            if isinstance(st, ast.AugAssign) and isinstance(st.target, ast.Name) and st.target.id == O:
+                return True
+            return any(isinstance(x, ast.Call) and isinstance(x.func, ast.Attribute) and x.func.attr in ('append', 'extend', 'insert') and isinstance(x.func.value, ast.Name) and x.func.value.id == O
+                       for x in ast.walk(st))
+
+        def updates(k: int) -> bool:
+            st = cfg.nodes[k].stmt
+            return cfg.nodes[k].kind == 'stmt' and isinstance(st, ast.Assign) and any(isinstance(t, ast.Name) and t.id == W for t in st.targets) \
+                and isinstance(st.value, ast.Call) and callee_last(st.value) == 'max' and any(isinstance(a, ast.Name) and a.id == W for a in st.value.args)
+        gs = [k for k in cfg.nodes if grows(k) and cfg.nodes[k].loops]
+        if not gs or not any(updates(k) for k in cfg.nodes):
+            continue
+        for g in gs:
+            n += 1
+            hdr = cfg.nodes[g].loops[-1]
+            entries = [b for b, l in cfg.succ[hdr] if l in ('iter', 'true')]
+            ok, wit = cfg.all_paths_pass(entries[0], updates, targets={g})
+            rep.ob(rule, f.fq(), f"{cfg.describe(g).split(': ', 1)[-1]} is preceded by {W} = max({W}, ...) in the same iteration", f.loc(cfg.nodes[g].stmt), ok,
+                   'every vertex placed in the order has its elimination degree counted in the reported width' if ok else
+                   f"vertices enter `{O}` on a path that never updates `{W}` (" + ' -> '.join(cfg.describe(x).split(':', 1)[0] for x in (wit or [])[-4:]) + '): the width returned with the order can be smaller than the width of that order')
+    rep.floor('C10-D4', n, 1)
